@@ -344,7 +344,7 @@ package core
 // ---------------------------------------------------------------------------------------------------------------
 
 //@ func CanTransfer props C17
-//@ requires db != nil && amount != nil
+//@ requires [nonnil] db != nil && amount != nil
 //@ pure
 //@ ensures [funds-cover-value] result == (c17Bal[addr] >= big(amount))
 
